@@ -129,6 +129,9 @@ PAIRS = {
     '2x3': ('line2', 'ElementLineP1', 'ElementLineP2'),
     '3x3': ('line2', 'ElementLineP2', 'ElementLineP2'),
     '3x1': ('line2', 'ElementLineP2', 'ElementLineP0'),
+    # vector-valued fields: the integrand takes components u[0], v[1] and works on them IN PLACE (legal: indexing a field hands out a copy)
+    'vec4x4': ('line2', 'ElementVector(ElementLineP1(), 2)', 'ElementVector(ElementLineP1(), 2)'),
+    'vec6x6': ('tri1', 'ElementVector(ElementTriP1())', 'ElementVector(ElementTriP1())'),
     '6x3': ('tri1', 'ElementTriP2', 'ElementTriP1'),
     '3x6': ('tri1', 'ElementTriP1', 'ElementTriP2'),
 }
@@ -143,12 +146,21 @@ def threads_config(h, pair, nthreads_list):
     with warnings.catch_warnings():
         warnings.simplefilter('ignore')
         m = make_mesh(h, mesh)
-        vb = S.CellBasis(m, getattr(S, ev)(), intorder=4)
-        ub = S.CellBasis(m, getattr(S, eu)(), intorder=4)
+        from checks.c09 import make_elem
+        vb = S.CellBasis(m, make_elem(ev) if '(' in ev else getattr(S, ev)(), intorder=4)
+        ub = S.CellBasis(m, make_elem(eu) if '(' in eu else getattr(S, eu)(), intorder=4)
     c = h.sym('c', (), nominal=1.375)
 
-    def form(u, v, w):
-        return u.grad[0] * v + w.c * u * v + 2 * u * v.grad[0] * w.x[0]
+    if pair.startswith('vec'):
+        def form(u, v, w):
+            ux = u[0]
+            ux *= 2              # in place on what indexing returned
+            vy = v[-1]
+            vy += w.c
+            return ux * vy + u[0] * v[0] * w.x[0] + u.grad[0, 0] * v[-1]
+    else:
+        def form(u, v, w):
+            return u.grad[0] * v + w.c * u * v + 2 * u * v.grad[0] * w.x[0]
 
     Nu, Nv, nt = ub.Nbfun, vb.Nbfun, m.t.shape[1]
     F0 = S.BilinearForm(form, dtype=dt, nthreads=0)
@@ -342,6 +354,9 @@ def build_configs(tier, seed):
     quick = tier == 'quick'
     cfgs = []
     pairs = ['1x1', '2x1', '1x2', '2x2', '3x2', '2x3'] if quick else list(PAIRS)
+    cfgs.append(dict(name='local=vec4x4/in-place-integrand', fn=threads_config, kw=dict(pair='vec4x4', nthreads_list=[1, 3]), opts=dict(timeout=900)))
+    if not quick:
+        cfgs.append(dict(name='local=vec6x6/in-place-integrand', fn=threads_config, kw=dict(pair='vec6x6', nthreads_list=[2, 5]), opts=dict(timeout=900)))
     for p in pairs:
         Nu, Nv = [int(x) for x in p.split('x')]
         top = Nu * Nv + 2
